@@ -281,17 +281,17 @@ def units(tier, seed):
                 heavy = OPS[op] in ('query', 'retract', 'retractall')
                 us.append(dict(id='a.%s.%s%s' % (OPS[op], PREDS[tp][0], tag), nmax=nmax, steps=1,
                                fixed=dict({'op0': op, 'tp0': tp}, **fx),
-                               ob='C07.a', timeout=400 if tier == 'quick' else 1500, weight=100 if heavy else 12,
+                               ob='C07.a', timeout=400 if tier == 'quick' else 700, weight=100 if heavy else 12,
                                bounds='one %s on %s/%d (pattern modes %r) from a state with 0..%d facts per predicate'
                                       % (OPS[op], PREDS[tp][0], PREDS[tp][1], fx, nmax)))
     if tier != 'quick':
         core = [i for i, o in enumerate(OPS) if o in ('assertz', 'asserta', 'query', 'retract', 'retractall')]
         for op0 in core:
             for op1 in core:
-                for tp in (0, 2):
+                for tp in (0,):
                     us.append(dict(id='b.%s-%s.%s' % (OPS[op0], OPS[op1], PREDS[tp][0]), nmax=2, steps=2,
                                    fixed={'op0': op0, 'op1': op1, 'tp0': tp, 'tp1': tp, 'gf0': 0, 'gf1': 0},
-                                   ob='C07.b', timeout=1200, weight=200,
+                                   ob='C07.b', timeout=600, weight=200,
                                    bounds='%s then %s on %s, 0..2 facts per predicate' % (OPS[op0], OPS[op1], PREDS[tp][0])))
     return us
 
